@@ -1,8 +1,20 @@
-//! C10 probe (temporary skeleton)
+//! C10: the frontend never panics on any query text.
+//!
+//! usage: tfh_c10 c10 --seed S --n N --out DIR [--oracle-only]
+//!        tfh_c10 probe SCHEMA(world|path) QUERY...   (verdict of frontend::parse + Gallina AST)
+//!
+//! ORACLE (the property itself, on raw text): catch_unwind(frontend::parse(schema, text)) must not
+//! panic.  A panic on a text whose PARSED document lies in a recorded known class (and whose panic
+//! message is that class's) is `oracle_fail_class`; any other panic is `oracle_fail`.
+//! TIE: the text is parsed by the real async_graphql_parser::parse_query, the ExecutableDocument is
+//! printed as a `document` of QueryAst.v, and the real parse_document / frontend results are compared
+//! with the Coq model (QueryParse.v: parse_doc; Front.v: front).
 #[path = "../coq.rs"]
 mod coq;
 #[path = "../out.rs"]
 mod out;
+#[path = "../qgen.rs"]
+mod qgen;
 #[path = "../rng.rs"]
 mod rng;
 #[path = "../show.rs"]
@@ -10,9 +22,62 @@ mod show;
 #[path = "../world.rs"]
 mod world;
 
+use async_graphql_parser::types::{
+    BaseType, DocumentOperations, ExecutableDocument, Field, FieldDefinition, OperationDefinition, OperationType,
+    Selection, ServiceDocument, Type as GType, TypeKind, TypeSystemDefinition,
+};
+use async_graphql_parser::{parse_query, parse_schema, Positioned};
+use async_graphql_value::Value as GValue;
+use coq::{cbool, cfv, clist, cstr};
+use out::{Case, Out};
+use rng::Rng;
+use serde_json::{json, Value as J};
+use show::{hex, show_fv};
+use std::collections::{BTreeMap, BTreeSet};
 use std::panic::{catch_unwind, AssertUnwindSafe};
+use std::path::PathBuf;
 use std::sync::Mutex;
+use trustfall_core::frontend::error::FrontendError;
+use trustfall_core::graphql_query::error::ParseError;
+use trustfall_core::ir::FieldValue;
 use trustfall_core::schema::Schema;
+
+// ------------------------------------------------------------------ CLI
+
+pub struct Args {
+    pub seed: u64,
+    pub n: usize,
+    pub out: PathBuf,
+    pub rest: Vec<String>,
+}
+
+fn parse_args(v: &[String]) -> Args {
+    let mut a = Args { seed: 0, n: 100, out: PathBuf::from("."), rest: vec![] };
+    let mut i = 0;
+    while i < v.len() {
+        match v[i].as_str() {
+            "--seed" => {
+                a.seed = v[i + 1].parse().unwrap();
+                i += 2;
+            }
+            "--n" => {
+                a.n = v[i + 1].parse().unwrap();
+                i += 2;
+            }
+            "--out" => {
+                a.out = PathBuf::from(&v[i + 1]);
+                i += 2;
+            }
+            _ => {
+                a.rest.push(v[i].clone());
+                i += 1;
+            }
+        }
+    }
+    a
+}
+
+// ------------------------------------------------------------------ panic capture
 
 static LAST_PANIC: Mutex<String> = Mutex::new(String::new());
 
@@ -26,33 +91,2086 @@ fn install_hook() {
         } else {
             String::new()
         };
-        *LAST_PANIC.lock().unwrap() = format!("{loc} {msg}");
+        if let Ok(mut g) = LAST_PANIC.lock() {
+            *g = format!("{loc} {msg}");
+        }
     }));
 }
+fn last_panic() -> String {
+    LAST_PANIC.lock().map(|g| g.clone()).unwrap_or_default()
+}
 
-fn load_schema(name: &str) -> Schema {
-    if name == "world" {
-        world::schema()
-    } else {
-        Schema::parse(std::fs::read_to_string(name).unwrap()).unwrap()
+// ------------------------------------------------------------------ ExecutableDocument -> Gallina (QueryAst.v)
+
+fn cvalue(v: &GValue) -> String {
+    match v {
+        GValue::Variable(n) => format!("(QVar {})", cstr(n.as_str())),
+        GValue::Null => "QNull".into(),
+        GValue::Number(n) => {
+            if let Some(u) = n.as_u64() {
+                format!("(QNum (NPos {}%Z))", u)
+            } else if let Some(i) = n.as_i64() {
+                format!("(QNum (NNeg ({})%Z))", i)
+            } else {
+                format!("(QNum (NFloat {}%N))", n.as_f64().unwrap().to_bits())
+            }
+        }
+        GValue::String(s) => format!("(QStr {})", cstr(s)),
+        GValue::Boolean(b) => format!("(QBool {})", cbool(*b)),
+        GValue::Binary(_) => "QBinary".into(),
+        GValue::Enum(n) => format!("(QEnum {})", cstr(n.as_str())),
+        GValue::List(l) => {
+            let parts: Vec<String> = l.iter().map(cvalue).collect();
+            format!("(QList {})", clist(&parts))
+        }
+        GValue::Object(o) => {
+            let parts: Vec<String> = o.iter().map(|(k, v)| format!("({}, {})", cstr(k.as_str()), cvalue(v))).collect();
+            format!("(QObject {})", clist(&parts))
+        }
     }
+}
+
+fn cargs(args: &[(Positioned<async_graphql_value::Name>, Positioned<GValue>)]) -> String {
+    let parts: Vec<String> =
+        args.iter().map(|(n, v)| format!("({}, {})", cstr(n.node.as_str()), cvalue(&v.node))).collect();
+    clist(&parts)
+}
+
+fn cdirs(ds: &[Positioned<async_graphql_parser::types::Directive>]) -> String {
+    let parts: Vec<String> =
+        ds.iter().map(|d| format!("(mkDir {} {})", cstr(d.node.name.node.as_str()), cargs(&d.node.arguments))).collect();
+    clist(&parts)
+}
+
+fn copt_str(o: Option<&str>) -> String {
+    match o {
+        Some(s) => format!("(Some {})", cstr(s)),
+        None => "None".into(),
+    }
+}
+
+fn csels(items: &[Positioned<Selection>]) -> String {
+    let parts: Vec<String> = items.iter().map(|s| csel(&s.node)).collect();
+    clist(&parts)
+}
+
+fn csel(s: &Selection) -> String {
+    match s {
+        Selection::Field(f) => {
+            let f = &f.node;
+            format!(
+                "(SField {} {} {} {} {})",
+                copt_str(f.alias.as_ref().map(|a| a.node.as_str())),
+                cstr(f.name.node.as_str()),
+                cargs(&f.arguments),
+                cdirs(&f.directives),
+                csels(&f.selection_set.node.items)
+            )
+        }
+        Selection::FragmentSpread(fs) => {
+            format!("(SSpread {} {})", cstr(fs.node.fragment_name.node.as_str()), cdirs(&fs.node.directives))
+        }
+        Selection::InlineFragment(inl) => format!(
+            "(SInline {} {} {})",
+            copt_str(inl.node.type_condition.as_ref().map(|c| c.node.on.node.as_str())),
+            cdirs(&inl.node.directives),
+            csels(&inl.node.selection_set.node.items)
+        ),
+    }
+}
+
+fn cop(op: &OperationDefinition) -> String {
+    let kind = match op.ty {
+        OperationType::Query => "OpQuery",
+        OperationType::Mutation => "OpMutation",
+        OperationType::Subscription => "OpSubscription",
+    };
+    let vars: Vec<String> = op
+        .variable_definitions
+        .iter()
+        .map(|v| {
+            let d = match &v.node.default_value {
+                Some(c) => format!("(Some {})", cvalue(&c.node.clone().into_value())),
+                None => "None".into(),
+            };
+            format!("(mkVarDef {} {} {})", cstr(v.node.name.node.as_str()), cstr(&v.node.var_type.node.to_string()), d)
+        })
+        .collect();
+    format!("(mkOp {} {} {} {})", kind, clist(&vars), cdirs(&op.directives), csels(&op.selection_set.node.items))
+}
+
+/// HashMaps are printed in key order (the model's outcome does not depend on the order).
+fn cdocument(doc: &ExecutableDocument) -> String {
+    let ops = match &doc.operations {
+        DocumentOperations::Single(op) => format!("(OpsSingle {})", cop(&op.node)),
+        DocumentOperations::Multiple(m) => {
+            let sorted: BTreeMap<&str, &Positioned<OperationDefinition>> = m.iter().map(|(k, v)| (k.as_str(), v)).collect();
+            let parts: Vec<String> = sorted.iter().map(|(k, v)| format!("({}, {})", cstr(k), cop(&v.node))).collect();
+            format!("(OpsMultiple {})", clist(&parts))
+        }
+    };
+    let sorted: BTreeMap<&str, _> = doc.fragments.iter().map(|(k, v)| (k.as_str(), v)).collect();
+    let frags: Vec<String> = sorted
+        .iter()
+        .map(|(k, v)| {
+            format!(
+                "({}, mkFrag {} {} {})",
+                cstr(k),
+                cstr(v.node.type_condition.node.on.node.as_str()),
+                cdirs(&v.node.directives),
+                csels(&v.node.selection_set.node.items)
+            )
+        })
+        .collect();
+    format!("(mkDoc {} {})", ops, clist(&frags))
+}
+
+// ------------------------------------------------------------------ rendering of parse_document's result (QueryParse.v show_*)
+
+fn jstr(v: &J) -> &str {
+    v.as_str().unwrap_or("?")
+}
+fn show_ostr(v: Option<&J>) -> String {
+    match v {
+        Some(J::String(s)) => format!("S({})", hex(s)),
+        _ => "N".into(),
+    }
+}
+fn show_list(parts: Vec<String>) -> String {
+    format!("[{}]", parts.join(","))
+}
+fn jlist<'a>(v: Option<&'a J>) -> Vec<&'a J> {
+    match v {
+        Some(J::Array(a)) => a.iter().collect(),
+        _ => vec![],
+    }
+}
+
+const OPS: [(&str, &str); 20] = [
+    ("IsNull", "is_null"),
+    ("IsNotNull", "is_not_null"),
+    ("Equals", "="),
+    ("NotEquals", "!="),
+    ("LessThan", "<"),
+    ("LessThanOrEqual", "<="),
+    ("GreaterThan", ">"),
+    ("GreaterThanOrEqual", ">="),
+    ("Contains", "contains"),
+    ("NotContains", "not_contains"),
+    ("OneOf", "one_of"),
+    ("NotOneOf", "not_one_of"),
+    ("HasPrefix", "has_prefix"),
+    ("NotHasPrefix", "not_has_prefix"),
+    ("HasSuffix", "has_suffix"),
+    ("NotHasSuffix", "not_has_suffix"),
+    ("HasSubstring", "has_substring"),
+    ("NotHasSubstring", "not_has_substring"),
+    ("RegexMatches", "regex"),
+    ("NotRegexMatches", "not_regex"),
+];
+
+/// {"operation": {"Equals": [null, {"VariableRef": "x"}]}}  |  {"operation": {"IsNull": null}}
+fn show_filter_dir(v: &J) -> String {
+    let op = &v["operation"];
+    if let Some(o) = op.as_object() {
+        if let Some((variant, payload)) = o.iter().next() {
+            let name = OPS.iter().find(|(k, _)| k == variant).map(|(_, n)| *n).unwrap_or("?");
+            if let Some(arr) = payload.as_array() {
+                let arg = &arr[1];
+                let a = if let Some(n) = arg.get("VariableRef") {
+                    format!("${}", hex(jstr(n)))
+                } else if let Some(n) = arg.get("TagRef") {
+                    format!("%{}", hex(jstr(n)))
+                } else {
+                    "?".into()
+                };
+                return format!("F({} {})", name, a);
+            }
+            return format!("F({})", name);
+        }
+    }
+    "F(?)".into()
+}
+fn show_named(v: &J) -> String {
+    show_ostr(v.get("name"))
+}
+fn show_tg(v: &J) -> String {
+    format!(
+        "TG({}{}{}{})",
+        show_list(jlist(v.get("output")).into_iter().map(show_named).collect()),
+        show_list(jlist(v.get("tag")).into_iter().map(show_named).collect()),
+        show_list(jlist(v.get("filter")).into_iter().map(show_filter_dir).collect()),
+        match v.get("retransform") {
+            Some(r) if !r.is_null() => show_tg(r),
+            _ => "-".into(),
+        }
+    )
+}
+fn show_otg(v: Option<&J>) -> String {
+    match v {
+        Some(g) if !g.is_null() => show_tg(g),
+        _ => "-".into(),
+    }
+}
+fn show_conn(v: &J) -> String {
+    let args: Vec<String> = match v.get("arguments") {
+        Some(J::Object(m)) => {
+            // serde_json's Map is sorted (BTreeMap) unless preserve_order; sort explicitly anyway
+            let mut items: Vec<(&String, &J)> = m.iter().collect();
+            items.sort_by(|a, b| a.0.as_bytes().cmp(b.0.as_bytes()));
+            items
+                .into_iter()
+                .map(|(k, x)| {
+                    let fvv: FieldValue = serde_json::from_value(x.clone()).unwrap_or(FieldValue::Null);
+                    format!("{}={}", hex(k), show_fv(&fvv))
+                })
+                .collect()
+        }
+        _ => vec![],
+    };
+    let rec = match v.get("recurse") {
+        Some(r) if !r.is_null() => format!("S({})", r["depth"]),
+        _ => "N".into(),
+    };
+    let fold = match v.get("fold") {
+        Some(f) if !f.is_null() => format!("fold{}", show_otg(f.get("transform"))),
+        _ => "-".into(),
+    };
+    format!(
+        "C({},{},{},{},{},{})",
+        hex(jstr(&v["name"])),
+        show_ostr(v.get("alias")),
+        show_list(args),
+        if v.get("optional").map(|o| !o.is_null()).unwrap_or(false) { "T" } else { "F" },
+        rec,
+        fold
+    )
+}
+fn show_node(v: &J) -> String {
+    let conns: Vec<String> = jlist(v.get("connections")).into_iter().map(|p| format!("{}{}", show_conn(&p[0]), show_node(&p[1]))).collect();
+    format!(
+        "N({},{},{},{}{}{}{}[{}])",
+        hex(jstr(&v["name"])),
+        show_ostr(v.get("alias")),
+        show_ostr(v.get("coerced_to")),
+        show_list(jlist(v.get("filter")).into_iter().map(show_filter_dir).collect()),
+        show_list(jlist(v.get("output")).into_iter().map(show_named).collect()),
+        show_list(jlist(v.get("tag")).into_iter().map(show_named).collect()),
+        show_otg(v.get("transform_group")),
+        conns.join(",")
+    )
+}
+fn show_query_json(v: &J) -> String {
+    format!("Q({}{})", show_conn(&v["root_connection"]), show_node(&v["root_field"]))
+}
+
+fn show_parse_error(e: &ParseError) -> String {
+    use ParseError::*;
+    match e {
+        UnrecognizedDirective(d, _) => format!("UnrecognizedDirective {}", hex(d)),
+        UnsupportedDirectivePosition(d, m, _) => format!("UnsupportedDirectivePosition {} {}", hex(d), hex(m)),
+        MissingRequiredDirectiveArgument(d, a, _) => format!("MissingRequiredDirectiveArgument {} {}", hex(d), hex(a)),
+        UnrecognizedDirectiveArgument(d, a, _) => format!("UnrecognizedDirectiveArgument {} {}", hex(d), hex(a)),
+        DuplicatedDirectiveArgument(d, a, _) => format!("DuplicatedDirectiveArgument {} {}", hex(d), hex(a)),
+        InappropriateTypeForDirectiveArgument(d, a, _) => {
+            format!("InappropriateTypeForDirectiveArgument {} {}", hex(d), hex(a))
+        }
+        FilterExpectsListNotString(o, v, _) => format!("FilterExpectsListNotString {} {}", hex(o), hex(v)),
+        InvalidFieldArgument(f, a, _, _) => format!("InvalidFieldArgument {} {}", hex(f), hex(a)),
+        DocumentContainsNonInlineFragments(_) => "DocumentContainsNonInlineFragments".into(),
+        MultipleOperationsInDocument(_) => "MultipleOperationsInDocument".into(),
+        MultipleQueryRoots(_) => "MultipleQueryRoots".into(),
+        UnsupportedQueryRoot(w, _) => format!("UnsupportedQueryRoot {}", hex(w)),
+        DirectiveNotInsideQueryRoot(d, _) => format!("DirectiveNotInsideQueryRoot {}", hex(d)),
+        DocumentNotAQuery(_) => "DocumentNotAQuery".into(),
+        UnsupportedFilterOperator(o, _) => format!("UnsupportedFilterOperator {}", hex(o)),
+        InvalidFilterOperandName(o, m, _) => format!("InvalidFilterOperandName {} {}", hex(o), hex(m)),
+        UnsupportedTransformOperator(o, _) => format!("UnsupportedTransformOperator {}", hex(o)),
+        InvalidOutputName(n, _, _) => format!("InvalidOutputName {}", hex(n)),
+        InvalidTagName(n, _, _) => format!("InvalidTagName {}", hex(n)),
+        InvalidGraphQL(_) => "InvalidGraphQL".into(),
+        UnsupportedSyntax(w, _) => format!("UnsupportedSyntax {}", hex(w)),
+        NestedTypeCoercion(_) => "NestedTypeCoercion".into(),
+        TypeCoercionWithSiblingFields(_) => "TypeCoercionWithSiblingFields".into(),
+        UnsupportedDuplicatedDirective(d, _) => format!("UnsupportedDuplicatedDirective {}", hex(d)),
+        DuplicatedEdgeParameter(p, e, _) => format!("DuplicatedEdgeParameter {} {}", hex(p), hex(e)),
+        VariableDefinitionInQuery(_) => "VariableDefinitionInQuery".into(),
+        OtherError(m, _) => format!("OtherError {}", hex(m)),
+        _ => "?".into(),
+    }
+}
+
+/// the real parse_document under catch_unwind, rendered like QueryParse.v's show_parse_doc
+fn run_parse_document(doc: &ExecutableDocument) -> String {
+    let r = catch_unwind(AssertUnwindSafe(|| trustfall_core::graphql_query::parse_document(doc)));
+    match r {
+        Err(_) => "PANIC".into(),
+        Ok(Err(e)) => format!("ERR {}", show_parse_error(&e)),
+        Ok(Ok(q)) => format!("OK {}", show_query_json(&serde_json::to_value(&q).unwrap())),
+    }
+}
+
+// ------------------------------------------------------------------ schemas
+
+const BUILTINS: [&str; 5] = ["Int", "Float", "String", "Boolean", "ID"];
+
+#[derive(Clone, Debug)]
+struct FInfo {
+    name: String,
+    base: String,
+    depth: usize,
+    is_edge: bool,
+    args: Vec<(String, String)>,
+}
+#[derive(Clone, Debug)]
+struct TInfo {
+    name: String,
+    is_interface: bool,
+    implements: Vec<String>,
+    fields: Vec<FInfo>,
+}
+struct SInfo {
+    name: String,
+    text: String,
+    schema: Schema,
+    root: String,
+    types: BTreeMap<String, TInfo>,
+    coq_name: String,
+    coq_doc: String,
+}
+
+fn gbase(t: &GType) -> (String, usize) {
+    match &t.base {
+        BaseType::Named(n) => (n.to_string(), 0),
+        BaseType::List(inner) => {
+            let (b, d) = gbase(inner);
+            (b, d + 1)
+        }
+    }
+}
+
+fn cgty(t: &GType) -> String {
+    match &t.base {
+        BaseType::Named(n) => format!("(GNamed {} {})", cstr(n.as_str()), cbool(t.nullable)),
+        BaseType::List(inner) => format!("(GList {} {})", cgty(inner), cbool(t.nullable)),
+    }
+}
+
+fn cfielddef(f: &FieldDefinition) -> String {
+    let args: Vec<String> = f
+        .arguments
+        .iter()
+        .map(|a| {
+            let d = match &a.node.default_value {
+                None => "NoDefault".to_string(),
+                Some(v) => match FieldValue::try_from(v.node.clone()) {
+                    Ok(fv) => format!("(Default {})", cfv(&fv)),
+                    Err(_) => "BadDefault".to_string(),
+                },
+            };
+            format!("(mkArg {} {} {})", cstr(a.node.name.node.as_str()), cgty(&a.node.ty.node), d)
+        })
+        .collect();
+    format!("(mkFld {} {} {})", cstr(f.name.node.as_str()), clist(&args), cgty(&f.ty.node))
+}
+
+/// the schema document as a `doc` of SchemaAst.v (same printer as tfh_c19)
+fn cschema_doc(doc: &ServiceDocument) -> String {
+    let mut defs = vec![];
+    for d in &doc.definitions {
+        match d {
+            TypeSystemDefinition::Schema(s) => {
+                let q = match &s.node.query {
+                    Some(q) => format!("(Some {})", cstr(q.node.as_str())),
+                    None => "None".to_string(),
+                };
+                defs.push(format!("DSchema {q}"));
+            }
+            TypeSystemDefinition::Directive(d) => defs.push(format!("DDirective {}", cstr(d.node.name.node.as_str()))),
+            TypeSystemDefinition::Type(t) => {
+                let name = cstr(t.node.name.node.as_str());
+                match &t.node.kind {
+                    TypeKind::Scalar => defs.push(format!("DScalar {name}")),
+                    TypeKind::Object(o) => {
+                        let imp: Vec<String> = o.implements.iter().map(|x| cstr(x.node.as_str())).collect();
+                        let fs: Vec<String> = o.fields.iter().map(|f| cfielddef(&f.node)).collect();
+                        defs.push(format!("DType (mkT {name} VObject {} {})", clist(&imp), clist(&fs)));
+                    }
+                    TypeKind::Interface(o) => {
+                        let imp: Vec<String> = o.implements.iter().map(|x| cstr(x.node.as_str())).collect();
+                        let fs: Vec<String> = o.fields.iter().map(|f| cfielddef(&f.node)).collect();
+                        defs.push(format!("DType (mkT {name} VInterface {} {})", clist(&imp), clist(&fs)));
+                    }
+                    _ => panic!("unsupported schema construct"),
+                }
+            }
+        }
+    }
+    clist(&defs)
+}
+
+fn make_sinfo(name: &str, text: String) -> SInfo {
+    let schema = Schema::parse(&text).expect("schema must be valid");
+    let doc = parse_schema(&text).unwrap();
+    let mut root = String::new();
+    let mut types = BTreeMap::new();
+    let mut vertex_names = BTreeSet::new();
+    for d in &doc.definitions {
+        if let TypeSystemDefinition::Type(t) = d {
+            if matches!(t.node.kind, TypeKind::Object(_) | TypeKind::Interface(_)) {
+                vertex_names.insert(t.node.name.node.to_string());
+            }
+        }
+    }
+    for d in &doc.definitions {
+        match d {
+            TypeSystemDefinition::Schema(s) => root = s.node.query.as_ref().unwrap().node.to_string(),
+            TypeSystemDefinition::Type(t) => {
+                let (is_interface, implements, fields) = match &t.node.kind {
+                    TypeKind::Object(o) => (false, &o.implements, &o.fields),
+                    TypeKind::Interface(o) => (true, &o.implements, &o.fields),
+                    _ => continue,
+                };
+                let fs = fields
+                    .iter()
+                    .map(|f| {
+                        let (base, depth) = gbase(&f.node.ty.node);
+                        FInfo {
+                            name: f.node.name.node.to_string(),
+                            is_edge: vertex_names.contains(&base),
+                            base,
+                            depth,
+                            args: f.node.arguments.iter().map(|a| (a.node.name.node.to_string(), a.node.ty.node.to_string())).collect(),
+                        }
+                    })
+                    .collect();
+                let tn = t.node.name.node.to_string();
+                types.insert(
+                    tn.clone(),
+                    TInfo { name: tn, is_interface, implements: implements.iter().map(|x| x.node.to_string()).collect(), fields: fs },
+                );
+            }
+            _ => {}
+        }
+    }
+    SInfo { name: name.to_string(), coq_name: format!("S_{name}"), coq_doc: cschema_doc(&doc), text, schema, root, types }
+}
+
+/// harness-owned schema accepted by Schema::parse that exercises the schema-dependent classes:
+/// a property with 30 list levels (the maximum), an edge whose definition repeats a parameter name
+fn edgecases_schema_text() -> String {
+    let deep = |d: usize| format!("{}Int{}", "[".repeat(d), "]".repeat(d));
+    format!(
+        "schema {{ query: RootSchemaQuery }}\n{}\ntype RootSchemaQuery {{ Node(x: Int): [Node] Dup: [Dup] Base: [Base] }}\n\
+         type Node {{ id: Int deep30: {} deep29: {} flags: [Boolean] name: String! next(lo: Int = 1, hi: Int!): [Node] dup: [Dup] base: Base }}\n\
+         type Dup {{ id: Int twice(a: Int = 3, a: Int = 4): [Dup] node: [Node] }}\n\
+         interface Base {{ id: Int kids: [Base] }}\n\
+         interface Mid implements Base {{ id: Int kids: [Mid] extra: Int }}\n\
+         type Leaf implements Mid & Base {{ id: Int kids: [Leaf] extra: Int }}\n",
+        Schema::ALL_DIRECTIVE_DEFINITIONS,
+        deep(30),
+        deep(29)
+    )
+}
+
+fn load_schemas() -> Vec<SInfo> {
+    let mut v = vec![make_sinfo("world", world::schema_text()), make_sinfo("edgecases", edgecases_schema_text())];
+    let dir = "/repo/trustfall_core/test_data/schemas";
+    let mut names: Vec<String> = std::fs::read_dir(dir)
+        .map(|rd| rd.filter_map(|e| e.ok()).map(|e| e.file_name().to_string_lossy().to_string()).collect())
+        .unwrap_or_default();
+    names.sort();
+    for n in names {
+        if let Some(stem) = n.strip_suffix(".graphql") {
+            let text = std::fs::read_to_string(format!("{dir}/{n}")).unwrap();
+            if Schema::parse(&text).is_ok() {
+                v.push(make_sinfo(stem, text));
+            }
+        }
+    }
+    v
+}
+
+// ------------------------------------------------------------------ known classes (syntactic, on the parsed document)
+
+fn value_has_enum(v: &GValue) -> bool {
+    match v {
+        GValue::Enum(_) => true,
+        GValue::List(l) => l.iter().any(value_has_enum),
+        _ => false,
+    }
+}
+
+struct ClassWalk<'a> {
+    s: &'a SInfo,
+    classes: BTreeSet<&'static str>,
+    outputs: usize,
+    fold_count_outputs: usize,
+}
+
+impl<'a> ClassWalk<'a> {
+    fn field(&mut self, parent: &str, f: &Field, fold_depth: usize) {
+        if f.arguments.iter().any(|(_, v)| value_has_enum(&v.node)) {
+            self.classes.insert("K-enum-argument");
+        }
+        let dnames: Vec<&str> = f.directives.iter().map(|d| d.node.name.node.as_str()).collect();
+        let fold_at = dnames.iter().position(|d| *d == "fold");
+        if let Some(i) = fold_at {
+            let transforms = dnames[i..].iter().filter(|d| **d == "transform").count();
+            if transforms >= 2 {
+                self.classes.insert("K-double-transform");
+            }
+            if let Some(t) = dnames[i..].iter().position(|d| *d == "transform") {
+                self.fold_count_outputs += dnames[i + t..].iter().filter(|d| **d == "output").count();
+            }
+        }
+        self.outputs += dnames.iter().filter(|d| **d == "output").count();
+        let name = f.name.node.as_str();
+        let (base, depth, is_edge) = if name == "__typename" {
+            ("String".to_string(), 0usize, false)
+        } else {
+            match self.s.types.get(parent).and_then(|t| t.fields.iter().find(|x| x.name == name)) {
+                Some(fi) => (fi.base.clone(), fi.depth, fi.is_edge),
+                None => return,
+            }
+        };
+        let items = &f.selection_set.node.items;
+        if let Some(fi) = self.s.types.get(parent).and_then(|t| t.fields.iter().find(|x| x.name == name)) {
+            let mut names: Vec<&String> = fi.args.iter().map(|a| &a.0).collect();
+            names.sort();
+            if names.windows(2).any(|w| w[0] == w[1]) {
+                self.classes.insert("K-schema-duplicate-parameter");
+            }
+        }
+        if !is_edge {
+            if depth >= 30 {
+                for d in &f.directives {
+                    if d.node.name.node.as_str() == "filter" {
+                        let op = d.node.get_argument("op").map(|x| &x.node);
+                        let val = d.node.get_argument("value").map(|x| &x.node);
+                        if let (Some(GValue::String(op)), Some(GValue::List(l))) = (op, val) {
+                            if matches!(op.as_str(), "one_of" | "not_one_of")
+                                && l.iter().any(|x| matches!(x, GValue::String(s) if s.starts_with('$')))
+                            {
+                                self.classes.insert("K-one-of-max-depth");
+                            }
+                        }
+                    }
+                }
+            }
+            // ordering filter with a variable operand on a property whose base type is not orderable
+            if !matches!(base.as_str(), "Int" | "Float" | "String") {
+                for d in &f.directives {
+                    if d.node.name.node.as_str() == "filter" {
+                        let op = d.node.get_argument("op").map(|x| &x.node);
+                        let val = d.node.get_argument("value").map(|x| &x.node);
+                        if let (Some(GValue::String(op)), Some(GValue::List(l))) = (op, val) {
+                            if matches!(op.as_str(), "<" | "<=" | ">" | ">=")
+                                && l.iter().any(|x| matches!(x, GValue::String(s) if s.starts_with('$')))
+                            {
+                                self.classes.insert("K-nonorderable-variable");
+                            }
+                        }
+                    }
+                }
+            }
+            if name != "__typename" && items.iter().any(|x| matches!(x.node, Selection::InlineFragment(_))) {
+                self.classes.insert("K-fragment-under-property");
+            }
+            if dnames.iter().any(|d| *d == "output") && fold_depth + depth > 30 {
+                self.classes.insert("K-output-list-depth");
+            }
+            return;
+        }
+        let inner_fold = fold_depth + if fold_at.is_some() { 1 } else { 0 };
+        if fold_at.is_some() && inner_fold > 30 && dnames.iter().any(|d| *d == "output") {
+            self.classes.insert("K-output-list-depth");
+        }
+        // descend (through one inline fragment if it is the only selection)
+        let mut ty = base.clone();
+        let mut sels = items;
+        if items.len() == 1 {
+            if let Selection::InlineFragment(inl) = &items[0].node {
+                if let Some(c) = &inl.node.type_condition {
+                    ty = c.node.on.node.to_string();
+                }
+                sels = &inl.node.selection_set.node.items;
+            }
+        }
+        for s in sels {
+            if let Selection::Field(sub) = &s.node {
+                self.field(&ty, &sub.node, inner_fold);
+            }
+        }
+    }
+}
+
+/// classes the parsed document lies in
+fn known_classes(s: &SInfo, doc: &ExecutableDocument) -> BTreeSet<&'static str> {
+    let mut w = ClassWalk { s, classes: BTreeSet::new(), outputs: 0, fold_count_outputs: 0 };
+    let op = match &doc.operations {
+        DocumentOperations::Single(op) => Some(op),
+        DocumentOperations::Multiple(m) => {
+            if doc.fragments.is_empty() && m.len() == 2 {
+                w.classes.insert("K-two-operations");
+            }
+            if m.len() == 1 {
+                m.values().next()
+            } else {
+                None
+            }
+        }
+    };
+    if let Some(op) = op {
+        let items = &op.node.selection_set.node.items;
+        if doc.fragments.is_empty() && op.node.ty == OperationType::Query && items.len() == 1 {
+            if let Selection::Field(f) = &items[0].node {
+                if f.node.name.node.as_str() == "__typename" {
+                    w.classes.insert("K-root-typename");
+                }
+                let root = s.root.clone();
+                w.field(&root, &f.node, 0);
+            }
+        }
+    }
+    if w.fold_count_outputs >= 1 && w.outputs >= 2 {
+        w.classes.insert("K-fold-count-output-clash");
+    }
+    w.classes
+}
+
+/// (class, file suffix, message fragment) of each recorded class's panic
+const CLASS_SITES: [(&str, &str, &str); 10] = [
+    ("K-one-of-max-depth", "ir/types/base.rs", "too many nested lists"),
+    ("K-schema-duplicate-parameter", "frontend/mod.rs", "BTreeMapOccupiedError"),
+    ("K-two-operations", "graphql_query/query.rs", "Could not iterate to second value"),
+    ("K-double-transform", "frontend/mod.rs", "re-transforming a @fold @transform"),
+    ("K-fragment-under-property", "frontend/validation.rs", "no entry found for key"),
+    ("K-root-typename", "frontend/mod.rs", "entered unreachable code"),
+    ("K-enum-argument", "ir/types/base.rs", "enum values are not currently supported"),
+    ("K-nonorderable-variable", "frontend/filters.rs", "called `Option::unwrap()` on a `None` value"),
+    ("K-fold-count-output-clash", "frontend/mod.rs", "no entry found for key"),
+    ("K-output-list-depth", "ir/types/base.rs", "too many nested lists"),
+];
+
+fn class_of_panic(classes: &BTreeSet<&'static str>, panic_text: &str) -> Option<&'static str> {
+    let (loc, msg) = panic_text.split_once(' ').unwrap_or((panic_text, ""));
+    let file = loc.rsplit_once(':').map(|x| x.0).unwrap_or(loc);
+    for (c, f, m) in CLASS_SITES.iter() {
+        if classes.contains(c) && file.ends_with(f) && msg.contains(m) {
+            return Some(c);
+        }
+    }
+    None
+}
+
+// ------------------------------------------------------------------ one text: oracle + tie
+
+#[derive(Default)]
+struct Seen {
+    asts: BTreeSet<String>,
+}
+
+fn verdict_kind(r: &Result<Result<std::sync::Arc<trustfall_core::ir::IndexedQuery>, FrontendError>, Box<dyn std::any::Any + Send>>) -> String {
+    match r {
+        Err(_) => "PANIC".into(),
+        Ok(Ok(_)) => "OK".into(),
+        Ok(Err(e)) => {
+            let k = format!("{e:?}");
+            let k = k.split(|c: char| c == '(' || c == '{' || c == ' ').next().unwrap_or("?").to_string();
+            format!("ERR:{k}")
+        }
+    }
+}
+
+fn check_text(o: &mut Out, seen: &mut Seen, s: &SInfo, text: &str, stream: &str, oracle_only: bool) {
+    o.count(&format!("stream:{stream}"));
+    let r = catch_unwind(AssertUnwindSafe(|| trustfall_core::frontend::parse(&s.schema, text)));
+    let panic_text = if r.is_err() { last_panic() } else { String::new() };
+    let kind = verdict_kind(&r);
+    o.count(&format!("verdict:{}", kind));
+    let parsed = catch_unwind(AssertUnwindSafe(|| parse_query(text)));
+    let doc = match parsed {
+        Err(_) => {
+            o.oracle_fail("async_graphql_parser::parse_query panicked", json!({"schema": s.name, "text": text}), json!({"panic": last_panic()}));
+            return;
+        }
+        Ok(d) => d,
+    };
+    let input = json!({"schema": s.name, "text": text, "stream": stream});
+    if r.is_err() {
+        let classes = match &doc {
+            Ok(d) => known_classes(s, d),
+            Err(_) => BTreeSet::new(),
+        };
+        match class_of_panic(&classes, &panic_text) {
+            Some(c) => {
+                o.count(&format!("known:{c}"));
+                o.oracle_fail_class(c, "frontend::parse panicked", input.clone(), json!({"panic": panic_text}));
+            }
+            None => o.oracle_fail("frontend::parse panicked", input.clone(), json!({"panic": panic_text, "classes": classes.iter().collect::<Vec<_>>()})),
+        }
+    }
+    let doc = match doc {
+        Ok(d) => d,
+        Err(_) => {
+            if let Ok(Ok(_)) = &r {
+                o.oracle_fail("frontend::parse accepted a text the parser rejects", input, json!({}));
+            }
+            return;
+        }
+    };
+    if oracle_only {
+        return;
+    }
+    let ast = cdocument(&doc);
+    let key = format!("{}|{}", s.name, ast);
+    if !seen.asts.insert(key.clone()) {
+        o.count("tie:duplicate-ast-skipped");
+        return;
+    }
+    // stage 1: parse_document; stage 2: frontend::parse_doc -- one case, the AST is printed once
+    let imp1 = run_parse_document(&doc);
+    o.count(&format!("parse_document:{}", imp1.split(' ').next().unwrap_or("?")));
+    let (imp2, imp3) = stage2_impl(o, s, &doc);
+    let nontrivial = !imp2.starts_with("PARSE-ERR");
+    o.add(Case {
+        input: json!({"schema": s.name, "text": text}),
+        coq: format!("show_both {} {}", s.coq_name, ast),
+        imp: format!("{imp1} || {imp2} || {imp3}"),
+        nontrivial,
+        key: key.clone(),
+    });
+    // every observed panic must lie inside the classes as defined in Coq (Front.v: known_parse)
+    if r.is_err() {
+        let classes = known_classes(s, &doc);
+        let c = class_of_panic(&classes, &panic_text).map(|x| x.to_string());
+        o.add_spec(
+            Case {
+                input: json!({"schema": s.name, "text": text, "check": "panic => Known (Coq predicate)"}),
+                coq: format!("show_known {} {}", s.coq_name, ast),
+                imp: "T".into(),
+                nontrivial: true,
+                key: format!("k|{key}"),
+            },
+            c,
+        );
+    }
+}
+
+// ------------------------------------------------------------------ stage 2 tie (frontend over the parsed query)
+
+use trustfall_core::frontend::error::{FilterTypeError, ValidationError as VE};
+use trustfall_core::ir::{Argument, ContextField, FieldRef, IREdge, IRFold, IRQuery, IRQueryComponent, IRVertex, Operation, Type};
+
+fn show_ty(t: &Type) -> String {
+    format!("{}#{}", t, t.__verif_mask())
+}
+fn jnum<T: serde::Serialize>(x: &T) -> String {
+    serde_json::to_string(x).unwrap()
+}
+fn show_cf(c: &ContextField) -> String {
+    format!("cf({},{},{})", jnum(&c.vertex_id), hex(&c.field_name), show_ty(&c.field_type))
+}
+fn show_fieldref(f: &FieldRef) -> String {
+    match f {
+        FieldRef::ContextField(c) => show_cf(c),
+        FieldRef::FoldSpecificField(ff) => format!("ff({},{})", jnum(&ff.fold_eid), jnum(&ff.fold_root_vid)),
+        _ => "?".into(),
+    }
+}
+fn show_argument(a: &Argument) -> String {
+    match a {
+        Argument::Tag(f) => format!("tag:{}", show_fieldref(f)),
+        Argument::Variable(v) => format!("var:{}:{}", hex(&v.variable_name), show_ty(&v.variable_type)),
+    }
+}
+fn show_oarg(a: Option<&Argument>) -> String {
+    match a {
+        Some(a) => format!("S({})", show_argument(a)),
+        None => "N".into(),
+    }
+}
+fn op_name<L, R>(op: &Operation<L, R>) -> &'static str
+where
+    L: std::fmt::Debug + Clone + PartialEq + Eq,
+    R: std::fmt::Debug + Clone + PartialEq + Eq,
+{
+    let d = format!("{op:?}");
+    let variant = d.split('(').next().unwrap_or("");
+    OPS.iter().find(|(k, _)| *k == variant).map(|(_, n)| *n).unwrap_or("?")
+}
+fn op_parts<L, R>(op: &Operation<L, R>) -> (&L, Option<&R>)
+where
+    L: std::fmt::Debug + Clone + PartialEq + Eq,
+    R: std::fmt::Debug + Clone + PartialEq + Eq,
+{
+    match op {
+        Operation::IsNull(l) | Operation::IsNotNull(l) => (l, None),
+        Operation::Equals(l, r)
+        | Operation::NotEquals(l, r)
+        | Operation::LessThan(l, r)
+        | Operation::LessThanOrEqual(l, r)
+        | Operation::GreaterThan(l, r)
+        | Operation::GreaterThanOrEqual(l, r)
+        | Operation::Contains(l, r)
+        | Operation::NotContains(l, r)
+        | Operation::OneOf(l, r)
+        | Operation::NotOneOf(l, r)
+        | Operation::HasPrefix(l, r)
+        | Operation::NotHasPrefix(l, r)
+        | Operation::HasSuffix(l, r)
+        | Operation::NotHasSuffix(l, r)
+        | Operation::HasSubstring(l, r)
+        | Operation::NotHasSubstring(l, r)
+        | Operation::RegexMatches(l, r)
+        | Operation::NotRegexMatches(l, r) => (l, Some(r)),
+        _ => panic!("unknown Operation variant"),
+    }
+}
+fn show_params(p: &trustfall_core::ir::EdgeParameters) -> String {
+    show_list(p.iter().map(|(k, v)| format!("{}={}", hex(k), show_fv(v))).collect())
+}
+fn show_vertex(v: &IRVertex) -> String {
+    let fs: Vec<String> = v
+        .filters
+        .iter()
+        .map(|f| {
+            let (l, r) = op_parts(f);
+            format!("vf({},{},{},{})", op_name(f), hex(&l.field_name), show_ty(&l.field_type), show_oarg(r))
+        })
+        .collect();
+    format!(
+        "v({},{},{},{})",
+        jnum(&v.vid),
+        hex(&v.type_name),
+        match &v.coerced_from_type {
+            Some(x) => format!("S({})", hex(x)),
+            None => "N".into(),
+        },
+        show_list(fs)
+    )
+}
+fn show_edge(e: &IREdge) -> String {
+    let rec = match &e.recursive {
+        Some(r) => format!(
+            "S(r({},{}))",
+            r.depth,
+            match &r.coerce_to {
+                Some(x) => format!("S({})", hex(x)),
+                None => "N".into(),
+            }
+        ),
+        None => "N".into(),
+    };
+    format!(
+        "e({},{},{},{},{},{},{})",
+        jnum(&e.eid),
+        jnum(&e.from_vid),
+        jnum(&e.to_vid),
+        hex(&e.edge_name),
+        show_params(&e.parameters),
+        if e.optional { "T" } else { "F" },
+        rec
+    )
+}
+fn show_fold(f: &IRFold) -> String {
+    format!(
+        "f({},{},{},{},{}{}{}{}{})",
+        jnum(&f.eid),
+        jnum(&f.from_vid),
+        jnum(&f.to_vid),
+        hex(&f.edge_name),
+        show_params(&f.parameters),
+        show_list(f.imported_tags.iter().map(show_fieldref).collect()),
+        show_list(f.fold_specific_outputs.keys().map(|k| hex(k)).collect()),
+        show_list(f.post_filters.iter().map(|pf| format!("pf({},{})", op_name(pf), show_oarg(op_parts(pf).1))).collect()),
+        show_comp(&f.component)
+    )
+}
+fn show_comp(c: &IRQueryComponent) -> String {
+    format!(
+        "c({},{}{}{}{})",
+        jnum(&c.root),
+        show_list(c.vertices.values().map(show_vertex).collect()),
+        show_list(c.edges.values().map(|e| show_edge(e)).collect()),
+        show_list(c.folds.values().map(|f| show_fold(f)).collect()),
+        show_list(c.outputs.iter().map(|(k, cf)| format!("{}={}", hex(k), show_cf(cf))).collect())
+    )
+}
+fn show_ir(q: &IRQuery) -> String {
+    format!(
+        "q({},{},{},{})",
+        hex(&q.root_name),
+        show_params(&q.root_parameters),
+        show_comp(&q.root_component),
+        show_list(q.variables.iter().map(|(k, t)| format!("{}:{}", hex(k), show_ty(t))).collect())
+    )
+}
+
+fn show_ft_error(e: &FilterTypeError) -> String {
+    use FilterTypeError::*;
+    let tf = |b: &bool| if *b { "T" } else { "F" };
+    match e {
+        IncompatibleVariableTypeRequirements(v, a, b) => format!("IncompatibleVariableTypeRequirements {} {} {}", hex(v), hex(a), hex(b)),
+        NonNullableTypeFilteredForNullability(o, s, b) => format!("NonNullableTypeFilteredForNullability {} {} {}", hex(o), hex(s), tf(b)),
+        TypeMismatchBetweenFilterSubjectAndArgument(o, s, a) => format!("TypeMismatchBetweenFilterSubjectAndArgument {} {} {}", hex(o), hex(s), hex(a)),
+        OrderingFilterOperationOnNonOrderableSubject(o, s) => format!("OrderingFilterOperationOnNonOrderableSubject {} {}", hex(o), hex(s)),
+        OrderingFilterOperationWithNonOrderableArgument(o, a) => format!("OrderingFilterOperationWithNonOrderableArgument {} {}", hex(o), hex(a)),
+        StringFilterOperationOnNonStringSubject(o, s) => format!("StringFilterOperationOnNonStringSubject {} {}", hex(o), hex(s)),
+        StringFilterOperationOnNonStringArgument(o, a) => format!("StringFilterOperationOnNonStringArgument {} {}", hex(o), hex(a)),
+        ListFilterOperationOnNonListSubject(o, s) => format!("ListFilterOperationOnNonListSubject {} {}", hex(o), hex(s)),
+        ListFilterOperationOnNonListArgument(o, a) => format!("ListFilterOperationOnNonListArgument {} {}", hex(o), hex(a)),
+        _ => "?".into(),
+    }
+}
+fn show_front_error(e: &FrontendError) -> String {
+    use FrontendError::*;
+    match e {
+        MultipleErrors(v) => v.0.iter().map(show_front_error).collect::<Vec<_>>().join("; "),
+        ParseError(p) => format!("ParseError {}", show_parse_error(p)),
+        UndefinedTagInFilter(p, t) => format!("UndefinedTagInFilter {} {}", hex(p), hex(t)),
+        TagUsedBeforeDefinition(p, t) => format!("TagUsedBeforeDefinition {} {}", hex(p), hex(t)),
+        TagUsedOutsideItsFoldedSubquery(p, t) => format!("TagUsedOutsideItsFoldedSubquery {} {}", hex(p), hex(t)),
+        UnusedTags(l) => format!("UnusedTags {}", show_list(l.iter().map(|x| hex(x)).collect())),
+        MultipleOutputsWithSameName(d) => format!(
+            "MultipleOutputsWithSameName {}",
+            show_list(
+                d.duplicates
+                    .iter()
+                    .map(|(k, v)| format!("{}={}", hex(k), show_list(v.iter().map(|(a, b)| format!("{}/{}", hex(a), hex(b))).collect())))
+                    .collect()
+            )
+        ),
+        MultipleTagsWithSameName(t) => format!("MultipleTagsWithSameName {}", hex(t)),
+        ExplicitTagNameRequired(f) => format!("ExplicitTagNameRequired {}", hex(f)),
+        FilterTypeError(f) => format!("FilterTypeError {}", show_ft_error(f)),
+        UnsupportedDirectiveOnProperty(d, p) => format!("UnsupportedDirectiveOnProperty {} {}", hex(d), hex(p)),
+        UnsupportedEdgeOutput(x) => format!("UnsupportedEdgeOutput {}", hex(x)),
+        UnsupportedEdgeFilter(x) => format!("UnsupportedEdgeFilter {}", hex(x)),
+        UnsupportedEdgeTag(x) => format!("UnsupportedEdgeTag {}", hex(x)),
+        UnsupportedDirectiveOnFoldedEdge(x, d) => format!("UnsupportedDirectiveOnFoldedEdge {} {}", hex(x), hex(d)),
+        MissingRequiredEdgeParameter(p, x) => format!("MissingRequiredEdgeParameter {} {}", hex(p), hex(x)),
+        UnexpectedEdgeParameter(p, x) => format!("UnexpectedEdgeParameter {} {}", hex(p), hex(x)),
+        InvalidEdgeParameterType(p, x, t, v) => format!("InvalidEdgeParameterType {} {} {} {}", hex(p), hex(x), hex(t), show_fv(v)),
+        RecursingNonRecursableEdge(x, a, b) => format!("RecursingNonRecursableEdge {} {} {}", hex(x), hex(a), hex(b)),
+        RecursionToSubtype(x, a, b) => format!("RecursionToSubtype {} {} {}", hex(x), hex(a), hex(b)),
+        AmbiguousOriginEdgeRecursion(x) => format!("AmbiguousOriginEdgeRecursion {}", hex(x)),
+        EdgeRecursionNeedingMultipleCoercions(x) => format!("EdgeRecursionNeedingMultipleCoercions {}", hex(x)),
+        PropertyMetaFieldUsedAsEdge(x) => format!("PropertyMetaFieldUsedAsEdge {}", hex(x)),
+        ValidationError(v) => format!(
+            "ValidationError {}",
+            match v {
+                VE::NonExistentPath(p) => format!("NonExistentPath {}", show_list(p.iter().map(|x| hex(x)).collect())),
+                VE::NonExistentType(t) => format!("NonExistentType {}", hex(t)),
+                VE::CannotCoerceNonInterfaceType(a, b) => format!("CannotCoerceNonInterfaceType {} {}", hex(a), hex(b)),
+                VE::CannotCoerceToUnrelatedType(a, b) => format!("CannotCoerceToUnrelatedType {} {}", hex(a), hex(b)),
+            }
+        ),
+        OtherError(m) => format!("OtherError {}", hex(m)),
+        _ => "?".into(),
+    }
+}
+
+fn stage2_impl(o: &mut Out, s: &SInfo, doc: &ExecutableDocument) -> (String, String) {
+    let r = catch_unwind(AssertUnwindSafe(|| trustfall_core::frontend::parse_doc(&s.schema, doc)));
+    let imp = match &r {
+        Err(_) => "PANIC".to_string(),
+        Ok(Err(FrontendError::ParseError(p))) => format!("PARSE-ERR {}", show_parse_error(p)),
+        Ok(Err(e)) => format!("ERR {}", show_front_error(e)),
+        Ok(Ok(ir)) => format!("OK {}", show_ir(ir)),
+    };
+    let kind = imp.split(' ').next().unwrap_or("?").to_string();
+    o.count(&format!("front:{kind}"));
+    let ix = match r {
+        Ok(Ok(ir)) => {
+            let x = catch_unwind(AssertUnwindSafe(|| trustfall_core::ir::IndexedQuery::try_from(ir)));
+            match x {
+                Err(_) => "IX-PANIC",
+                Ok(Err(_)) => "IX-ERR",
+                Ok(Ok(_)) => "IX-OK",
+            }
+        }
+        _ => "-",
+    };
+    o.count(&format!("index:{ix}"));
+    (imp, ix.to_string())
+}
+
+// ------------------------------------------------------------------ corpora
+
+/// (schema name, query text) of the repository's own test inputs
+fn repo_corpus() -> Vec<(String, String, String)> {
+    let mut v = vec![];
+    for dir in ["parse_errors", "frontend_errors", "execution_errors", "valid_queries"] {
+        let base = format!("/repo/trustfall_core/test_data/tests/{dir}");
+        let mut names: Vec<String> = std::fs::read_dir(&base)
+            .map(|rd| rd.filter_map(|e| e.ok()).map(|e| e.file_name().to_string_lossy().to_string()).collect())
+            .unwrap_or_default();
+        names.sort();
+        for n in names {
+            if n.ends_with(".graphql.ron") {
+                let data = std::fs::read_to_string(format!("{base}/{n}")).unwrap();
+                if let Ok(t) = ron::from_str::<trustfall_core::test_types::TestGraphQLQuery>(&data) {
+                    v.push((t.schema_name.clone(), t.query.clone(), format!("repo:{dir}")));
+                }
+            }
+        }
+    }
+    v
+}
+
+/// minimal witnesses of every recorded class and of the boundaries around them
+fn witness_corpus() -> Vec<(&'static str, String)> {
+    fn nest(k: usize, edge: &str, inner: &str) -> String {
+        let mut s = inner.to_string();
+        for _ in 0..k {
+            s = format!("{edge} {{ {s} }}");
+        }
+        s
+    }
+    let mut v: Vec<(&'static str, String)> = vec![];
+    let n = "numbers";
+    for q in [
+        // F1 and its neighbours
+        "query A { Four { value @output } } query B { Four { value @output } }",
+        "query A { Four { value @output } } query B { Four { value @output } } query C { Four { value @output } }",
+        "query A { Four { value @output } }",
+        "query A { Four { value @output } } mutation B { Four { value @output } }",
+        "query A { Four { value @output } } query B { Four { value @output } } fragment F on Number { value }",
+        "mutation { Four { value @output } }",
+        "subscription { Four { value @output } }",
+        "query ($x: Int = 3) { Four { value @output } }",
+        "query @foo { Four { value @output } }",
+        "{ Four { value @output } Two { value @output } }",
+        "{ ... on Number { value @output } }",
+        "{ ...F } fragment F on RootSchemaQuery { Four { value @output } }",
+        "{ Four @output { value } }",
+        // F2 and neighbours
+        "{ Four { primeFactor @fold @transform(op: \"count\") @transform(op: \"count\") @output { value } } }",
+        "{ Four { primeFactor @fold @transform(op: \"count\") @output { value } } }",
+        "{ Four { primeFactor @fold @transform(op: \"count\") @filter(op: \">\", value: [\"$x\"]) @transform(op: \"count\") { value @output } } }",
+        "{ Four { primeFactor @transform(op: \"count\") @fold { value @output } } }",
+        "{ Four { primeFactor @fold @fold { value @output } } }",
+        "{ Four { primeFactor @fold @optional { value @output } } }",
+        "{ Four { primeFactor @fold @transform(op: \"count\") @fold { value @output } } }",
+        "{ Four { value @transform(op: \"count\") @transform(op: \"count\") @output } }",
+        "{ Four { value @fold @transform(op: \"count\") @transform(op: \"count\") @output } }",
+        // F3 and neighbours
+        "{ Four { name { ... on Prime { value @output } } } }",
+        "{ Four { name { ... { value @output } } } }",
+        "{ Four { name { value @output } } }",
+        "{ Four { __typename { ... on Prime { value @output } } } }",
+        "{ Four { successor { ... on Prime { value @output } } } }",
+        "{ Four { successor { ... on Nope { value @output } } } }",
+        "{ Four { successor { ... on Prime { value @output } value } } }",
+        "{ Four { successor { ... on Prime { ... on Prime { value @output } } } } }",
+        // root __typename
+        "{ __typename }",
+        "{ __typename @output }",
+        "{ __typename { value } }",
+        "{ Four { __typename @output } }",
+        "{ Four { __typename @fold @optional @recurse(depth: 2) @output } }",
+        // enum-valued edge arguments
+        "{ Number(max: FOO) { value @output } }",
+        "{ Number(min: 1, max: [FOO]) { value @output } }",
+        "{ Number(max: \"FOO\") { value @output } }",
+        "{ Number(max: $x) { value @output } }",
+        "{ Number(max: {a: 1}) { value @output } }",
+        "{ Number(max: null) { value @output } }",
+        "{ Number(max: 3, max: 4) { value @output } }",
+        "{ Number(nope: FOO) { value @output } }",
+        "{ Four { value(x: FOO) @output } }",
+        "{ Four { multiple(max: FOO) @fold { value @output } } }",
+        // fold-count output clashing with another output of the enclosing component
+        "{ Four { value @output(name: \"x\") primeFactor @fold @transform(op: \"count\") @output(name: \"x\") } }",
+        "{ Four { successor @fold @transform(op: \"count\") @output(name: \"x\") primeFactor @fold @transform(op: \"count\") @output(name: \"x\") } }",
+        "{ Four { primeFactor @fold @transform(op: \"count\") @output @output(name: \"primeFactorcount\") { factors: value @output } } }",
+        "{ Four { value @output(name: \"x\") value @output(name: \"x\") } }",
+        "{ Four { value @output(name: \"x\") primeFactor @fold { value @output(name: \"x\") } } }",
+        "{ Four { primeFactorcount: value @output primeFactor @fold @transform(op: \"count\") @output } }",
+        // ordering
+        "{ Four { value @filter(op: \"<\", value: [\"$x\"]) @output } }",
+        "{ Four { vowelsInName @filter(op: \"<\", value: [\"$x\"]) @output } }",
+    ] {
+        v.push((n, q.to_string()));
+    }
+    for q in [
+        "{ MainType { bool @filter(op: \"<\", value: [\"$x\"]) @output } }",
+        "{ MainType { nonNullBool @filter(op: \">=\", value: [\"$x\"]) @output } }",
+        "{ MainType { bool @filter(op: \"=\", value: [\"$x\"]) @output } }",
+        "{ MainType { nonNullBool @output @tag(name: \"my_tag\") bool @filter(op: \"<\", value: [\"%my_tag\"]) } }",
+        "{ MainType { bool @filter(op: \"has_prefix\", value: [\"$x\"]) @output } }",
+        "{ MainType { bool @filter(op: \"contains\", value: [\"$x\"]) @output } }",
+        "{ MainType { bool @filter(op: \"one_of\", value: [\"$x\"]) @output } }",
+    ] {
+        v.push(("nullables", q.to_string()));
+    }
+    for k in [1usize, 29, 30, 31, 32] {
+        v.push(("world", format!("{{ Thing {{ {} }} }}", nest(k, "next @fold", "id @output"))));
+        v.push(("world", format!("{{ Thing {{ {} }} }}", nest(k, "next @fold", "nums @output"))));
+    }
+    v.push(("world", format!("{{ Thing {{ {} }} }}", nest(31, "next @fold", "id"))));
+    v.push(("world", format!("{{ Thing {{ {} }} }}", nest(30, "next @fold", "next @fold @transform(op: \"count\") @output"))));
+    v.push(("world", format!("{{ Thing {{ {} }} }}", nest(29, "next @fold", "next @fold @transform(op: \"count\") @output"))));
+    for k in [60usize, 63, 64, 65, 200] {
+        v.push(("world", format!("{{ Thing {{ {} }} }}", nest(k, "next", "id @output"))));
+    }
+    v.push(("world", format!("{{ Thing {{ id @filter(op: \"one_of\", value: {}) @output }} }}", "[".repeat(100) + &"]".repeat(100))));
+    v.push(("world", "{ Thing { flag @filter(op: \"<\", value: [\"$x\"]) @output } }".to_string()));
+    v.push(("world", "{ Thing { flag @filter(op: \">\", value: [\"$x\"]) id @output } }".to_string()));
+    v.push(("world", "{ Thing(lo: FOO) { id @output } }".to_string()));
+    v.push(("world", "{ Thing { next(hi: A) { id @output } } }".to_string()));
+    v.push(("world", "{ Thing { name { ... on Item { id @output } } } }".to_string()));
+    v.push(("world", "{ Thing { id @output(name: \"c\") link @fold @transform(op: \"count\") @output(name: \"c\") } }".to_string()));
+    v.push(("world", "{ Thing { link @fold @transform(op: \"count\") @transform(op: \"count\") @output } }".to_string()));
+    v.push(("world", "{ __typename }".to_string()));
+    v.push(("world", "query A { Thing { id @output } } query B { Thing { id @output } }".to_string()));
+    for q in [
+        "{ Node { deep30 @filter(op: \"one_of\", value: [\"$x\"]) @output } }",
+        "{ Node { deep30 @filter(op: \"not_one_of\", value: [\"$x\"]) id @output } }",
+        "{ Node { deep29 @filter(op: \"one_of\", value: [\"$x\"]) @output } }",
+        "{ Node { deep30 @filter(op: \"=\", value: [\"$x\"]) @output } }",
+        "{ Node { deep30 @tag(name: \"t\") deep30 @filter(op: \"one_of\", value: [\"%t\"]) @output } }",
+        "{ Node { deep30 @filter(op: \"contains\", value: [\"$x\"]) @output } }",
+        "{ Node { deep30 @output } }",
+        "{ Node { next(hi: 1) @fold { deep30 @output } } }",
+        "{ Node { next(hi: 1) @fold { deep29 @output } } }",
+        "{ Node { flags @filter(op: \"<\", value: [\"$x\"]) @output } }",
+        "{ Dup { id @output } }",
+        "{ Dup { twice { id @output } } }",
+        "{ Dup { twice(a: 1) { id @output } } }",
+        "{ Dup { twice @fold { id @output } } }",
+        "{ Node { dup { twice(a: 1, a: 2) { id @output } } } }",
+        "{ Node { next { id @output } } }",
+        "{ Node { next(hi: 2) @recurse(depth: 2) { id @output } } }",
+        "{ Base { kids @recurse(depth: 2) { id @output } } }",
+        "{ Base { ... on Leaf { kids @recurse(depth: 2) { id @output } } } }",
+        "{ Base { ... on Mid { kids @recurse(depth: 2) { id @output } } } }",
+        "{ Node { base { ... on Leaf { extra @output } } } }",
+        "{ Node { base { ... on Node { id @output } } } }",
+    ] {
+        v.push(("edgecases", q.to_string()));
+    }
+    for q in ["", " ", "{", "}", "{}", "{ }", "query", "query {", "{ Thing }", "{ Thing { } }", "{ Thing { id @output } } }", "\u{0}", "{ Thing { id @output(name: \"\\u00e9\") } }"] {
+        v.push(("world", q.to_string()));
+    }
+    v
+}
+
+// ------------------------------------------------------------------ token-level mutations
+
+#[derive(Clone, Debug, PartialEq)]
+enum Tok {
+    P(char),
+    Spread,
+    Name(String),
+    Str(String),
+    Num(String),
+    Other(String),
+}
+
+fn lex(s: &str) -> Vec<Tok> {
+    let cs: Vec<char> = s.chars().collect();
+    let mut i = 0;
+    let mut out = vec![];
+    while i < cs.len() {
+        let c = cs[i];
+        if c.is_whitespace() || c == ',' {
+            i += 1;
+        } else if c == '#' {
+            while i < cs.len() && cs[i] != '\n' {
+                i += 1;
+            }
+        } else if c == '.' && i + 2 < cs.len() && cs[i + 1] == '.' && cs[i + 2] == '.' {
+            out.push(Tok::Spread);
+            i += 3;
+        } else if "{}()[]:@!=$".contains(c) {
+            out.push(Tok::P(c));
+            i += 1;
+        } else if c == '"' {
+            let mut j = i + 1;
+            while j < cs.len() && cs[j] != '"' {
+                if cs[j] == '\\' {
+                    j += 1;
+                }
+                j += 1;
+            }
+            let end = (j + 1).min(cs.len());
+            out.push(Tok::Str(cs[i..end].iter().collect()));
+            i = end;
+        } else if c.is_ascii_alphabetic() || c == '_' {
+            let mut j = i;
+            while j < cs.len() && (cs[j].is_ascii_alphanumeric() || cs[j] == '_') {
+                j += 1;
+            }
+            out.push(Tok::Name(cs[i..j].iter().collect()));
+            i = j;
+        } else if c.is_ascii_digit() || c == '-' {
+            let mut j = i + 1;
+            while j < cs.len() && (cs[j].is_ascii_alphanumeric() || cs[j] == '.' || cs[j] == '-' || cs[j] == '+') {
+                j += 1;
+            }
+            out.push(Tok::Num(cs[i..j].iter().collect()));
+            i = j;
+        } else {
+            out.push(Tok::Other(c.to_string()));
+            i += 1;
+        }
+    }
+    out
+}
+
+fn unlex(ts: &[Tok]) -> String {
+    let mut s = String::new();
+    for t in ts {
+        match t {
+            Tok::P(c) => {
+                if *c == '@' || *c == '{' || *c == '}' {
+                    s.push(' ');
+                }
+                s.push(*c);
+                if *c == ':' || *c == '{' || *c == '}' {
+                    s.push(' ');
+                }
+            }
+            Tok::Spread => s.push_str(" ... "),
+            Tok::Name(n) => {
+                if s.ends_with(|c: char| c.is_ascii_alphanumeric() || c == '_' || c == '"' || c == ')' || c == ']') {
+                    s.push(' ');
+                }
+                s.push_str(n);
+            }
+            Tok::Str(x) | Tok::Num(x) | Tok::Other(x) => {
+                if s.ends_with(|c: char| c.is_ascii_alphanumeric() || c == '_' || c == '"' || c == ']') {
+                    s.push(' ');
+                }
+                s.push_str(x);
+            }
+        }
+    }
+    s
+}
+
+/// index just past the group opened at `open` (a `(`, `[` or `{`), or ts.len()
+fn match_close(ts: &[Tok], open: usize) -> usize {
+    let (o, c) = match ts[open] {
+        Tok::P('(') => ('(', ')'),
+        Tok::P('[') => ('[', ']'),
+        _ => ('{', '}'),
+    };
+    let mut depth = 0i32;
+    let mut i = open;
+    while i < ts.len() {
+        if ts[i] == Tok::P(o) {
+            depth += 1;
+        } else if ts[i] == Tok::P(c) {
+            depth -= 1;
+            if depth == 0 {
+                return i + 1;
+            }
+        }
+        i += 1;
+    }
+    ts.len()
+}
+
+/// spans [start, end) of `@name` / `@name(...)`
+fn directive_spans(ts: &[Tok]) -> Vec<(usize, usize)> {
+    let mut v = vec![];
+    let mut i = 0;
+    while i + 1 < ts.len() {
+        if ts[i] == Tok::P('@') {
+            if let Tok::Name(_) = ts[i + 1] {
+                let mut end = i + 2;
+                if end < ts.len() && ts[end] == Tok::P('(') {
+                    end = match_close(ts, end);
+                }
+                v.push((i, end));
+                i = end;
+                continue;
+            }
+        }
+        i += 1;
+    }
+    v
+}
+
+/// indices of Name tokens that are field names (not directive names, argument names, type names)
+fn field_name_positions(ts: &[Tok]) -> Vec<usize> {
+    let mut v = vec![];
+    let mut paren = 0i32;
+    for i in 0..ts.len() {
+        match &ts[i] {
+            Tok::P('(') | Tok::P('[') => paren += 1,
+            Tok::P(')') | Tok::P(']') => paren -= 1,
+            Tok::Name(n) if paren == 0 => {
+                let prev = if i > 0 { Some(&ts[i - 1]) } else { None };
+                let next = ts.get(i + 1);
+                let is_kw = i == 0 && matches!(n.as_str(), "query" | "mutation" | "subscription" | "fragment");
+                if prev != Some(&Tok::P('@')) && next != Some(&Tok::P(':')) && prev != Some(&Tok::Name("on".into())) && n != "on" && !is_kw {
+                    v.push(i);
+                }
+            }
+            _ => {}
+        }
+    }
+    v
+}
+
+const FILTER_OPS: [&str; 22] = [
+    "is_null", "is_not_null", "=", "!=", "<", "<=", ">", ">=", "contains", "not_contains", "one_of", "not_one_of", "has_prefix",
+    "not_has_prefix", "has_suffix", "not_has_suffix", "has_substring", "not_has_substring", "regex", "not_regex", "like", "",
+];
+
+fn rand_value(r: &mut Rng, depth: usize) -> String {
+    match r.below(if depth > 2 { 14 } else { 18 }) {
+        0 => "0".into(),
+        1 => "1".into(),
+        2 => "-1".into(),
+        3 => "18446744073709551615".into(),
+        4 => "18446744073709551616".into(),
+        5 => "-9223372036854775808".into(),
+        6 => "1.5".into(),
+        7 => "1e400".into(),
+        8 => "null".into(),
+        9 => "true".into(),
+        10 => "FOO".into(),
+        11 => "$x".into(),
+        12 => format!("\"{}\"", r.pick(&["", "a", "$a", "%a", "$", "%", "$1", "$a-b", "%_", "count", "x y", "\\u00e9", "$\\u00e9", "=", "<"])),
+        13 => "\"$v1\"".into(),
+        14 => "[]".into(),
+        15 => format!("[{}]", rand_value(r, depth + 1)),
+        16 => format!("[{}, {}]", rand_value(r, depth + 1), rand_value(r, depth + 1)),
+        _ => format!("{{a: {}}}", rand_value(r, depth + 1)),
+    }
+}
+
+fn rand_directive(r: &mut Rng, tags: &[String]) -> String {
+    match r.below(26) {
+        0 => "@fold".into(),
+        1 => "@optional".into(),
+        2 => "@output".into(),
+        3 => "@tag".into(),
+        4 => "@transform(op: \"count\")".into(),
+        5 => "@fold @transform(op: \"count\")".into(),
+        6 => "@fold @transform(op: \"count\") @output".into(),
+        7 => "@fold @transform(op: \"count\") @transform(op: \"count\")".into(),
+        8 => format!("@recurse(depth: {})", r.pick(&["1", "2", "0", "-1", "3.0", "18446744073709551615", "18446744073709551616", "\"2\"", "null", "$d", "[1]"])),
+        9 => format!("@output(name: {})", rand_value(r, 0)),
+        10 => format!("@output(name: \"{}\")", r.pick(&["o1", "o2", "a", "x_y", "a-b", "", "\\u00e9", "count"])),
+        11 => format!("@tag(name: \"{}\")", r.pick(&["t1", "t2", "a", "a-b", ""])),
+        12 => format!("@filter(op: \"{}\", value: [\"${}\"])", r.pick(&FILTER_OPS), r.pick(&["v1", "v2", "x"])),
+        13 => {
+            let t = if tags.is_empty() { "t1".to_string() } else { r.pick(tags).clone() };
+            format!("@filter(op: \"{}\", value: [\"%{}\"])", r.pick(&FILTER_OPS), t)
+        }
+        14 => format!("@filter(op: \"{}\")", r.pick(&FILTER_OPS)),
+        15 => format!("@filter(op: {}, value: {})", rand_value(r, 0), rand_value(r, 0)),
+        16 => format!("@filter(op: \"{}\", value: {})", r.pick(&FILTER_OPS), rand_value(r, 0)),
+        17 => format!("@filter(value: [\"$x\"], op: \"=\", extra: {})", rand_value(r, 0)),
+        18 => format!("@transform(op: {})", rand_value(r, 0)),
+        19 => format!("@{}(x: 1)", r.pick(&["fold", "optional", "skip", "include", "unknown"])),
+        20 => format!("@{}", r.pick(&["skip", "include", "deprecated", "x"])),
+        21 => "@output(name: \"a\", name: \"b\")".into(),
+        22 => "@recurse(depth: 1, depth: 2)".into(),
+        23 => "@transform(op: \"count\", op: \"count\")".into(),
+        24 => "@filter(op: \"=\", value: [\"$a\", \"$b\"])".into(),
+        _ => "@filter(op: \"is_null\", value: [])".into(),
+    }
+}
+
+fn splice(ts: &mut Vec<Tok>, at: usize, text: &str) {
+    let new = lex(text);
+    let at = at.min(ts.len());
+    let tail = ts.split_off(at);
+    ts.extend(new);
+    ts.extend(tail);
+}
+
+fn type_names(s: &SInfo) -> Vec<String> {
+    let mut v: Vec<String> = s.types.keys().cloned().collect();
+    v.push("Nope".into());
+    v.push("String".into());
+    v
+}
+
+fn all_field_names(s: &SInfo) -> Vec<String> {
+    let mut v: BTreeSet<String> = BTreeSet::new();
+    for t in s.types.values() {
+        for f in &t.fields {
+            v.insert(f.name.clone());
+        }
+    }
+    v.insert("__typename".into());
+    v.insert("nope".into());
+    v.insert("__schema".into());
+    v.into_iter().collect()
+}
+
+fn tag_names(ts: &[Tok]) -> Vec<String> {
+    let mut v = vec![];
+    for (a, b) in directive_spans(ts) {
+        if ts[a + 1] == Tok::Name("tag".into()) {
+            for t in &ts[a..b] {
+                if let Tok::Str(x) = t {
+                    v.push(x.trim_matches('"').to_string());
+                }
+            }
+        }
+    }
+    v
+}
+
+/// one token-level mutation; returns a label
+fn mutate_tokens(r: &mut Rng, s: &SInfo, ts: &mut Vec<Tok>) -> &'static str {
+    let dirs = directive_spans(ts);
+    let tags = tag_names(ts);
+    let fields = field_name_positions(ts);
+    let braces: Vec<usize> = (0..ts.len()).filter(|i| ts[*i] == Tok::P('{')).collect();
+    match r.below(24) {
+        0 if !dirs.is_empty() => {
+            let (a, b) = *r.pick(&dirs);
+            let copy: Vec<Tok> = ts[a..b].to_vec();
+            let at = if r.chance(1, 2) { b } else { r.pick(&dirs).1 };
+            let tail = ts.split_off(at);
+            ts.extend(copy);
+            ts.extend(tail);
+            "dup-directive"
+        }
+        1 if !dirs.is_empty() => {
+            let (a, b) = *r.pick(&dirs);
+            ts.drain(a..b);
+            "drop-directive"
+        }
+        2 if dirs.len() >= 2 => {
+            let i = r.below(dirs.len() - 1);
+            let (a, b) = dirs[i];
+            let (c, d) = dirs[i + 1];
+            if b == c {
+                let first: Vec<Tok> = ts[a..b].to_vec();
+                let second: Vec<Tok> = ts[c..d].to_vec();
+                ts.splice(a..d, second.into_iter().chain(first));
+            }
+            "swap-directives"
+        }
+        3 if dirs.len() >= 2 => {
+            let (a, b) = *r.pick(&dirs);
+            let moved: Vec<Tok> = ts.drain(a..b).collect();
+            let dirs2 = directive_spans(ts);
+            let at = if dirs2.is_empty() { ts.len().saturating_sub(1) } else { r.pick(&dirs2).1 };
+            let tail = ts.split_off(at);
+            ts.extend(moved);
+            ts.extend(tail);
+            "move-directive"
+        }
+        4 if !dirs.is_empty() => {
+            let (a, b) = *r.pick(&dirs);
+            ts.drain(a..b);
+            let d = rand_directive(r, &tags);
+            splice(ts, a, &d);
+            "replace-directive"
+        }
+        5 | 6 => {
+            let d = rand_directive(r, &tags);
+            let at = if !dirs.is_empty() && r.chance(2, 3) {
+                let (a, b) = *r.pick(&dirs);
+                if r.chance(1, 2) { b } else { a }
+            } else if !fields.is_empty() {
+                r.pick(&fields) + 1
+            } else {
+                ts.len()
+            };
+            splice(ts, at, &d);
+            "insert-directive"
+        }
+        7 if !dirs.is_empty() => {
+            // change an argument value inside a directive
+            let (a, b) = *r.pick(&dirs);
+            let colons: Vec<usize> = (a..b).filter(|i| ts[*i] == Tok::P(':')).collect();
+            if !colons.is_empty() {
+                let c = *r.pick(&colons);
+                let vstart = c + 1;
+                let vend = match ts.get(vstart) {
+                    Some(Tok::P('[')) | Some(Tok::P('{')) => match_close(ts, vstart),
+                    Some(Tok::P('$')) => vstart + 2,
+                    _ => vstart + 1,
+                }
+                .min(b.saturating_sub(1));
+                if vstart < vend {
+                    ts.drain(vstart..vend);
+                }
+                let v = rand_value(r, 0);
+                splice(ts, vstart, &v);
+            }
+            "argument-value"
+        }
+        8 if braces.len() >= 2 => {
+            // wrap the body of a block in an inline fragment
+            let open = braces[1 + r.below(braces.len() - 1)];
+            let close = match_close(ts, open);
+            let tn = type_names(s);
+            let head = match r.below(4) {
+                0 => "... {".to_string(),
+                1 => format!("... on {} @optional {{", r.pick(&tn)),
+                _ => format!("... on {} {{", r.pick(&tn)),
+            };
+            if close >= 1 && close <= ts.len() {
+                let tail_text = if r.chance(1, 4) { "} id @output(name: \"sib\")" } else { "}" };
+                splice(ts, close - 1, tail_text);
+                splice(ts, open + 1, &head);
+            }
+            "wrap-inline-fragment"
+        }
+        9 if !fields.is_empty() => {
+            // give a field (often a property) a selection set with an inline fragment / fields
+            let i = *r.pick(&fields);
+            let mut at = i + 1;
+            if ts.get(at) == Some(&Tok::P('(')) {
+                at = match_close(ts, at);
+            }
+            while ts.get(at) == Some(&Tok::P('@')) {
+                at += 2;
+                if ts.get(at) == Some(&Tok::P('(')) {
+                    at = match_close(ts, at);
+                }
+            }
+            if ts.get(at) != Some(&Tok::P('{')) {
+                let tn = type_names(s);
+                let body = match r.below(4) {
+                    0 => format!("{{ ... on {} {{ id @output(name: \"u1\") }} }}", r.pick(&tn)),
+                    1 => "{ ... { id } }".to_string(),
+                    2 => "{ id }".to_string(),
+                    _ => format!("{{ ... on {} {{ {} }} }}", r.pick(&tn), r.pick(&all_field_names(s))),
+                };
+                splice(ts, at, &body);
+            }
+            "selection-under-field"
+        }
+        10 if !fields.is_empty() => {
+            let i = *r.pick(&fields);
+            splice(ts, i, &format!("{}:", r.pick(&["a1", "o1", "id", "__x", "count"])));
+            "alias"
+        }
+        11 if !fields.is_empty() => {
+            let i = *r.pick(&fields);
+            if ts.get(i + 1) != Some(&Tok::P('(')) {
+                let a = format!("({}: {})", r.pick(&["x", "lo", "hi", "max", "min"]), rand_value(r, 0));
+                splice(ts, i + 1, &a);
+            }
+            "field-arguments"
+        }
+        12 if !fields.is_empty() => {
+            let i = *r.pick(&fields);
+            ts[i] = Tok::Name(r.pick(&all_field_names(s)).clone());
+            "rename-field"
+        }
+        13 => {
+            let body = unlex(ts);
+            let extra = match r.below(9) {
+                0 => format!("query A {body} query B {body}"),
+                1 => format!("query A {body} query B {body} query C {body}"),
+                2 => format!("query A {body}"),
+                3 => format!("mutation {body}"),
+                4 => format!("subscription S {body}"),
+                5 => format!("query ($x: Int) {body}"),
+                6 => format!("query Q @foo {body}"),
+                7 => format!("{body} fragment F on {} {{ id }}", r.pick(&type_names(s))),
+                _ => format!("query A {body} mutation B {body}"),
+            };
+            // a leading `query {` of the original would make `query A query {`: strip the keyword
+            let extra = extra.replace("query A query", "query A").replace("query B query", "query B").replace("query C query", "query C").replace("mutation query", "mutation").replace("mutation B query", "mutation B").replace("subscription S query", "subscription S").replace("query ($x: Int) query", "query ($x: Int)").replace("query Q @foo query", "query Q @foo");
+            *ts = lex(&extra);
+            "operations"
+        }
+        14 => {
+            // make two output / tag names equal, or drop a name
+            let strs: Vec<usize> = dirs
+                .iter()
+                .filter(|(a, _)| matches!(&ts[a + 1], Tok::Name(n) if n == "output" || n == "tag"))
+                .flat_map(|(a, b)| (*a..*b).filter(|i| matches!(ts[*i], Tok::Str(_))).collect::<Vec<_>>())
+                .collect();
+            if strs.len() >= 2 {
+                let i = *r.pick(&strs);
+                let j = *r.pick(&strs);
+                ts[i] = ts[j].clone();
+            }
+            "equal-names"
+        }
+        15 => {
+            let strs: Vec<usize> = (0..ts.len()).filter(|i| matches!(&ts[*i], Tok::Str(x) if x.starts_with("\"$") || x.starts_with("\"%"))).collect();
+            if !strs.is_empty() {
+                let i = *r.pick(&strs);
+                let t = if tags.is_empty() { "t1".to_string() } else { r.pick(&tags).clone() };
+                ts[i] = Tok::Str(match r.below(6) {
+                    0 => format!("\"%{t}\""),
+                    1 => "\"$\"".into(),
+                    2 => "\"x\"".into(),
+                    3 => "\"$1a\"".into(),
+                    4 => "\"%nope\"".into(),
+                    _ => "\"$shared\"".into(),
+                });
+            }
+            "operand"
+        }
+        16 if braces.len() >= 2 => {
+            let open = *r.pick(&braces);
+            let close = match_close(ts, open);
+            if close > open + 1 {
+                ts.drain(open + 1..close - 1);
+            }
+            "empty-selection"
+        }
+        17 if braces.len() >= 2 => {
+            // spread or inline fragment as an extra selection
+            let open = *r.pick(&braces);
+            let x = match r.below(3) {
+                0 => "...F".to_string(),
+                1 => format!("... on {} {{ id }}", r.pick(&type_names(s))),
+                _ => "__typename @output(name: \"tn\")".to_string(),
+            };
+            splice(ts, open + 1, &x);
+            "extra-selection"
+        }
+        18 if !ts.is_empty() => {
+            let i = r.below(ts.len());
+            ts.remove(i);
+            "drop-token"
+        }
+        19 if !ts.is_empty() => {
+            let i = r.below(ts.len());
+            let t = ts[r.below(ts.len())].clone();
+            ts.insert(i, t);
+            "copy-token"
+        }
+        20 if ts.len() >= 2 => {
+            let i = r.below(ts.len());
+            let j = r.below(ts.len());
+            ts.swap(i, j);
+            "swap-tokens"
+        }
+        21 if !fields.is_empty() => {
+            // duplicate a whole field (with its block) as a sibling
+            let i = *r.pick(&fields);
+            let mut end = i + 1;
+            if ts.get(end) == Some(&Tok::P('(')) {
+                end = match_close(ts, end);
+            }
+            while ts.get(end) == Some(&Tok::P('@')) {
+                end += 2;
+                if ts.get(end) == Some(&Tok::P('(')) {
+                    end = match_close(ts, end);
+                }
+            }
+            if ts.get(end) == Some(&Tok::P('{')) {
+                end = match_close(ts, end);
+            }
+            let end = end.min(ts.len());
+            let copy: Vec<Tok> = ts[i..end].to_vec();
+            let tail = ts.split_off(end);
+            ts.extend(copy);
+            ts.extend(tail);
+            "dup-field"
+        }
+        _ => {
+            let d = rand_directive(r, &tags);
+            let at = if fields.is_empty() { ts.len() } else { r.pick(&fields) + 1 };
+            splice(ts, at, &d);
+            "insert-directive"
+        }
+    }
+}
+
+fn mutate_bytes(r: &mut Rng, text: &str) -> String {
+    let mut b: Vec<u8> = text.as_bytes().to_vec();
+    match r.below(6) {
+        0 => {
+            let at = r.below(b.len() + 1);
+            b.truncate(at);
+        }
+        1 if !b.is_empty() => {
+            let i = r.below(b.len());
+            b.remove(i);
+        }
+        2 => {
+            let i = r.below(b.len() + 1);
+            b.insert(i, *r.pick(b"{}()[]@:\"$%!.,#\\ \n\x00\xff\xc3-0123456789abcXYZ_"));
+        }
+        3 if !b.is_empty() => {
+            let i = r.below(b.len());
+            b[i] = (r.next_u64() & 0xff) as u8;
+        }
+        4 if !b.is_empty() => {
+            let i = r.below(b.len());
+            let j = r.below(b.len());
+            b.swap(i, j);
+        }
+        _ => {
+            let n = 1 + r.below(40);
+            b = (0..n).map(|_| *r.pick(b"{}()[]@:\"$%!.,# \nabcquery_0123456789-\\\xc3\xa9")).collect();
+        }
+    }
+    String::from_utf8_lossy(&b).to_string()
+}
+
+// ------------------------------------------------------------------ schema-directed "wild" generator (any schema)
+
+struct Wild<'a> {
+    r: &'a mut Rng,
+    s: &'a SInfo,
+    out_ctr: usize,
+    tag_ctr: usize,
+    tags: Vec<(String, String)>, // (name, base type)
+}
+
+impl<'a> Wild<'a> {
+    fn arg_value(&mut self, ty: &str) -> String {
+        if self.r.chance(1, 8) {
+            return rand_value(self.r, 0);
+        }
+        let base = ty.trim_matches(|c| c == '[' || c == ']' || c == '!');
+        let scalar = match base {
+            "Int" => self.r.pick(&["0", "1", "3", "10", "-2", "18446744073709551615"]).to_string(),
+            "String" => "\"a\"".to_string(),
+            "Float" => "1.5".to_string(),
+            "Boolean" => "true".to_string(),
+            _ => "null".to_string(),
+        };
+        if ty.trim_end_matches('!').starts_with('[') { format!("[{scalar}]") } else { scalar }
+    }
+
+    fn prop_directives(&mut self, f: &FInfo, in_fold: bool) -> String {
+        let mut d = String::new();
+        let n = self.r.below(3);
+        for _ in 0..n {
+            match self.r.below(8) {
+                0 | 1 => {
+                    self.out_ctr += 1;
+                    if self.r.chance(1, 6) {
+                        d.push_str(" @output");
+                    } else {
+                        d.push_str(&format!(" @output(name: \"o{}\")", if self.r.chance(1, 10) { 1 } else { self.out_ctr }));
+                    }
+                }
+                2 => {
+                    self.tag_ctr += 1;
+                    let name = format!("t{}", self.tag_ctr);
+                    d.push_str(&format!(" @tag(name: \"{name}\")"));
+                    self.tags.push((name, f.base.clone()));
+                }
+                3 | 4 => {
+                    let op = if f.depth > 0 {
+                        *self.r.pick(&["contains", "not_contains", "=", "is_null", "<", "one_of"])
+                    } else {
+                        *self.r.pick(&["=", "!=", "<", "<=", ">", ">=", "one_of", "not_one_of", "has_prefix", "has_substring", "regex", "is_null", "is_not_null", "contains"])
+                    };
+                    if op.starts_with("is_") {
+                        d.push_str(&format!(" @filter(op: \"{op}\")"));
+                    } else {
+                        d.push_str(&format!(" @filter(op: \"{op}\", value: [\"$v{}\"])", self.r.below(4)));
+                    }
+                }
+                5 => {
+                    let same: Vec<String> = self.tags.iter().filter(|t| t.1 == f.base || self.r.chance(1, 6)).map(|t| t.0.clone()).collect();
+                    if !same.is_empty() {
+                        let t = self.r.pick(&same).clone();
+                        let op = *self.r.pick(&["=", "<", ">=", "!=", "has_prefix", "one_of", "contains"]);
+                        d.push_str(&format!(" @filter(op: \"{op}\", value: [\"%{t}\"])"));
+                    }
+                }
+                _ => {
+                    let tags: Vec<String> = self.tags.iter().map(|t| t.0.clone()).collect();
+                    d.push(' ');
+                    d.push_str(&rand_directive(self.r, &tags));
+                }
+            }
+        }
+        let _ = in_fold;
+        d
+    }
+
+    fn scope(&mut self, ty: &str, depth: usize, fold_depth: usize, out: &mut String) {
+        let t = match self.s.types.get(ty) {
+            Some(t) => t.clone(),
+            None => {
+                out.push_str(" id @output ");
+                return;
+            }
+        };
+        let k = 1 + self.r.below(4);
+        for _ in 0..k {
+            if t.fields.is_empty() {
+                break;
+            }
+            let f = if self.r.chance(1, 25) {
+                // a field of some other type, or a meta field
+                let names = all_field_names(self.s);
+                FInfo { name: self.r.pick(&names).clone(), base: "String".into(), depth: 0, is_edge: false, args: vec![] }
+            } else {
+                self.r.pick(&t.fields).clone()
+            };
+            if self.r.chance(1, 12) {
+                out.push_str(&format!(" a{}:", self.r.below(3)));
+            }
+            out.push(' ');
+            out.push_str(&f.name);
+            if !f.args.is_empty() && self.r.chance(2, 3) || self.r.chance(1, 40) {
+                let mut parts = vec![];
+                for (n, ty) in &f.args {
+                    if self.r.chance(3, 4) {
+                        parts.push(format!("{n}: {}", self.arg_value(ty)));
+                    }
+                }
+                if self.r.chance(1, 20) {
+                    parts.push(format!("zz: {}", rand_value(self.r, 0)));
+                }
+                if !parts.is_empty() {
+                    out.push_str(&format!("({})", parts.join(", ")));
+                }
+            }
+            if f.is_edge {
+                let mut inner_fold = fold_depth;
+                match self.r.below(12) {
+                    0 | 1 => out.push_str(" @optional"),
+                    2 => out.push_str(&format!(" @recurse(depth: {})", 1 + self.r.below(3))),
+                    3 | 4 => {
+                        out.push_str(" @fold");
+                        inner_fold += 1;
+                    }
+                    5 | 6 => {
+                        inner_fold += 1;
+                        out.push_str(" @fold @transform(op: \"count\")");
+                        let n = self.r.below(3);
+                        for _ in 0..n {
+                            match self.r.below(4) {
+                                0 => {
+                                    self.out_ctr += 1;
+                                    if self.r.chance(1, 3) {
+                                        out.push_str(" @output");
+                                    } else {
+                                        out.push_str(&format!(" @output(name: \"o{}\")", if self.r.chance(1, 6) { 1 } else { self.out_ctr }));
+                                    }
+                                }
+                                1 => {
+                                    self.tag_ctr += 1;
+                                    let name = format!("t{}", self.tag_ctr);
+                                    out.push_str(&format!(" @tag(name: \"{name}\")"));
+                                    self.tags.push((name, "Int".into()));
+                                }
+                                2 => out.push_str(&format!(" @filter(op: \"{}\", value: [\"$c{}\"])", self.r.pick(&["=", ">", ">=", "<", "one_of", "has_prefix", "is_null"]), self.r.below(3))),
+                                _ => out.push_str(" @transform(op: \"count\")"),
+                            }
+                        }
+                    }
+                    7 => {
+                        let tags: Vec<String> = self.tags.iter().map(|t| t.0.clone()).collect();
+                        out.push(' ');
+                        out.push_str(&rand_directive(self.r, &tags));
+                    }
+                    _ => {}
+                }
+                if depth == 0 {
+                    continue; // edge without a selection set
+                }
+                out.push_str(" {");
+                // coercion
+                let subs: Vec<String> = self.s.types.values().filter(|x| x.implements.contains(&f.base)).map(|x| x.name.clone()).collect();
+                let mut inner_ty = f.base.clone();
+                let coerce = self.r.chance(1, 5);
+                if coerce {
+                    let target = if !subs.is_empty() && self.r.chance(4, 5) { self.r.pick(&subs).clone() } else { self.r.pick(&type_names(self.s)).clone() };
+                    out.push_str(&format!(" ... on {target} {{"));
+                    inner_ty = target;
+                }
+                self.scope(&inner_ty, depth.saturating_sub(1), inner_fold, out);
+                if coerce {
+                    out.push_str(" }");
+                    if self.r.chance(1, 15) {
+                        out.push_str(" id");
+                    }
+                }
+                out.push_str(" }");
+            } else {
+                let d = self.prop_directives(&f, fold_depth > 0);
+                out.push_str(&d);
+                if self.r.chance(1, 30) {
+                    out.push_str(&format!(" {{ ... on {} {{ id }} }}", self.r.pick(&type_names(self.s))));
+                }
+            }
+        }
+    }
+}
+
+fn gen_wild(r: &mut Rng, s: &SInfo) -> String {
+    let root = s.types.get(&s.root).cloned();
+    let mut w = Wild { r, s, out_ctr: 0, tag_ctr: 0, tags: vec![] };
+    let mut out = String::from("{");
+    if let Some(root) = root {
+        let f = w.r.pick(&root.fields).clone();
+        out.push(' ');
+        out.push_str(&f.name);
+        let mut parts = vec![];
+        for (n, ty) in &f.args {
+            if w.r.chance(4, 5) {
+                parts.push(format!("{n}: {}", w.arg_value(ty)));
+            }
+        }
+        if !parts.is_empty() {
+            out.push_str(&format!("({})", parts.join(", ")));
+        }
+        out.push_str(" {");
+        let depth = w.r.below(4);
+        w.scope(&f.base, depth, 0, &mut out);
+        if w.out_ctr == 0 {
+            out.push_str(" __typename @output(name: \"tn\")");
+        }
+        out.push_str(" }");
+    }
+    out.push_str(" }");
+    out
+}
+
+// ------------------------------------------------------------------ driver
+
+fn run_c10(args: &Args) {
+    let oracle_only = args.rest.iter().any(|x| x == "--oracle-only");
+    let schemas = load_schemas();
+    let mut imports = String::from("From TF Require Import Values Show Ty SchemaAst QueryAst QueryParse.\nLocal Open Scope string_scope.\n");
+    imports.push_str(&stage2_imports(&schemas));
+    let mut o = Out::new(&args.out, &imports, 170);
+    let mut seen = Seen::default();
+    let by_name = |n: &str| schemas.iter().find(|s| s.name == n);
+    // (o) fixed corpora
+    let mut bases: Vec<(usize, String)> = vec![]; // (schema index, text) to mutate
+    for (sn, q) in witness_corpus() {
+        if let Some(s) = by_name(sn) {
+            check_text(&mut o, &mut seen, s, &q, "witness", oracle_only);
+        }
+    }
+    for (sn, q, stream) in repo_corpus() {
+        if let Some(i) = schemas.iter().position(|s| s.name == sn) {
+            check_text(&mut o, &mut seen, &schemas[i], &q, &stream, oracle_only);
+            bases.push((i, q.clone()));
+            // the repository's queries against every other schema as well (unknown fields/types everywhere)
+            for (j, s2) in schemas.iter().enumerate() {
+                if j != i && (q.len() + j) % 7 == 0 {
+                    check_text(&mut o, &mut seen, s2, &q, "repo:cross-schema", true);
+                }
+            }
+        }
+    }
+    // (i) seeded streams
+    let mut rng = Rng::new(args.seed);
+    let n = args.n;
+    for k in 0..n {
+        let mut r = rng.fork();
+        match k % 10 {
+            0 | 1 => {
+                // valid generated query (world schema)
+                let mut g = qgen::QGen::new(&mut r);
+                g.p_known_defects = 0;
+                let t = g.gen_query().text;
+                check_text(&mut o, &mut seen, &schemas[0], &t, "qgen", oracle_only);
+                if bases.len() < 4000 {
+                    bases.push((0, t));
+                }
+            }
+            2 | 3 => {
+                let si = r.below(schemas.len());
+                let t = gen_wild(&mut r, &schemas[si]);
+                check_text(&mut o, &mut seen, &schemas[si], &t, "wild", oracle_only);
+                if r.chance(1, 2) {
+                    bases.push((si, t));
+                }
+            }
+            4 | 5 | 6 | 7 | 8 => {
+                // token-level mutations of a base text
+                let (si, base) = if r.chance(1, 2) || bases.is_empty() {
+                    let mut g = qgen::QGen::new(&mut r);
+                    g.p_known_defects = 0;
+                    g.max_depth = 2;
+                    (0usize, g.gen_query().text)
+                } else {
+                    bases[r.below(bases.len())].clone()
+                };
+                let mut ts = lex(&base);
+                let m = 1 + r.below(3);
+                let mut labels = vec![];
+                for _ in 0..m {
+                    labels.push(mutate_tokens(&mut r, &schemas[si], &mut ts));
+                }
+                for l in &labels {
+                    o.count(&format!("mutation:{l}"));
+                }
+                let t = unlex(&ts);
+                check_text(&mut o, &mut seen, &schemas[si], &t, "token-mutation", oracle_only);
+            }
+            _ => {
+                let (si, base) = if bases.is_empty() { (0, "{ Thing { id @output } }".to_string()) } else { bases[r.below(bases.len())].clone() };
+                let mut t = mutate_bytes(&mut r, &base);
+                if r.chance(1, 3) {
+                    t = mutate_bytes(&mut r, &t);
+                }
+                check_text(&mut o, &mut seen, &schemas[si], &t, "byte-mutation", true);
+            }
+        }
+    }
+    o.extra.insert("schemas".into(), json!(schemas.iter().map(|s| s.name.clone()).collect::<Vec<_>>()));
+    o.finish();
 }
 
 fn main() {
     let argv: Vec<String> = std::env::args().collect();
+    if argv.len() < 2 {
+        eprintln!("usage: tfh_c10 c10 [--seed S] [--n N] [--out DIR] [--oracle-only] | probe SCHEMA QUERY...");
+        std::process::exit(2);
+    }
     install_hook();
     match argv[1].as_str() {
+        "c10" => {
+            let args = parse_args(&argv[2..]);
+            run_c10(&args);
+        }
         "probe" => {
-            let schema = load_schema(&argv[2]);
+            let mut schemas = load_schemas();
+            if std::path::Path::new(&argv[2]).exists() {
+                schemas.push(make_sinfo(&argv[2], std::fs::read_to_string(&argv[2]).unwrap()));
+            }
+            let s = match schemas.iter().find(|s| s.name == argv[2]) {
+                Some(s) => s,
+                None => {
+                    eprintln!("unknown schema {}", argv[2]);
+                    std::process::exit(2);
+                }
+            };
+            if std::env::var("C10_PRINT_SCHEMA").is_ok() {
+                println!("schema-doc: {}", s.coq_doc);
+            }
             for q in &argv[3..] {
-                let r = catch_unwind(AssertUnwindSafe(|| trustfall_core::frontend::parse(&schema, q)));
-                match r {
+                let r = catch_unwind(AssertUnwindSafe(|| trustfall_core::frontend::parse(&s.schema, q)));
+                match &r {
                     Ok(Ok(_)) => println!("OK      {q}"),
                     Ok(Err(e)) => println!("ERR     {q}\n   {e:?}"),
-                    Err(_) => println!("PANIC   {q}\n   {}", LAST_PANIC.lock().unwrap()),
+                    Err(_) => println!("PANIC   {q}\n   {}", last_panic()),
+                }
+                if let Ok(doc) = parse_query(q) {
+                    println!("   classes: {:?}", known_classes(s, &doc));
+                    println!("   parse_document: {}", run_parse_document(&doc));
+                    println!("   ast: {}", cdocument(&doc));
                 }
             }
         }
-        _ => std::process::exit(2),
+        other => {
+            eprintln!("unknown subcommand {other}");
+            std::process::exit(2);
+        }
     }
+}
+
+fn stage2_imports(schemas: &[SInfo]) -> String {
+    let mut s = String::from("From TF Require Import SchemaNew Front.\nDefinition show_both (os : option schema) (d : document) : string := show_parse_doc d ++ \" || \" ++ show_front_doc os d ++ \" || \" ++ show_index_doc os d.\n");
+    for sc in schemas {
+        s.push_str(&format!("Definition {} := Eval vm_compute in (schema_of_doc {}).\n", sc.coq_name, sc.coq_doc));
+    }
+    s
 }
